@@ -16,7 +16,8 @@ import sys
 import time
 
 ROOT = os.path.dirname(os.path.dirname(os.path.abspath(__file__)))
-EVIDENCE_DIR = os.path.join(ROOT, 'evidence')
+# VERIF_EVIDENCE_DIR: only for self-validation runs against mutated copies (so that they do not overwrite real evidence)
+EVIDENCE_DIR = os.environ.get('VERIF_EVIDENCE_DIR') or os.path.join(ROOT, 'evidence')
 REPLAY_DIR = os.path.join(ROOT, 'replays')
 WORK_DIR = os.path.join(ROOT, '.work')
 KNOWN_FILE = os.path.join(ROOT, 'known_findings.json')
